@@ -527,3 +527,21 @@ Qed.
 
 Lemma write_msg_abridged_unaligned m : blen m mod 4 <> 0 -> write_msg Abridged m = Err.
 Proof. intros H. cbn [write_msg]. destruct (N.eqb_spec (blen m mod 4) 0); [contradiction|reflexivity]. Qed.
+
+Lemma write_all_ok v msgs : Forall (carriable v) msgs -> write_all v msgs = Ok (concat (map (frame v) msgs)).
+Proof.
+  induction 1 as [|m msgs Hm _ IH]; cbn [write_all map concat]; [reflexivity|].
+  rewrite write_msg_ok by exact Hm. rewrite IH. reflexivity.
+Qed.
+
+Lemma write_stream_ok v msgs : Forall (carriable v) msgs -> write_stream v msgs = Ok (wire v msgs).
+Proof. intros H. unfold write_stream, wire. rewrite write_all_ok by exact H. reflexivity. Qed.
+
+Theorem end_to_end v msgs : Forall (carriable v) msgs ->
+  exists s, write_stream v msgs = Ok s /\
+    forall chunks, concat chunks = s ->
+      read_stream chunks = Some {| d_mode := Some v; d_msgs := msgs; d_end := EEof |}.
+Proof.
+  intros H. exists (wire v msgs). split; [apply write_stream_ok; exact H|].
+  intros chunks Hc. apply delivery; assumption.
+Qed.
